@@ -10,6 +10,7 @@ for d in seeded/*/; do
 	[ -f "$d/patch.diff" ] || continue
 	props=$(python3 -c "import json;print(json.load(open('$d/meta.json'))['breaks_property'])")
 	[ "$id" = revert-7695b12 ] && props="C27 C29 C32"
+	[ "$id" = C10-I ] && props="C08" # only breaks a reused Parser
 	for p in $props; do
 		r=$(tools/seedtest.sh "$d/patch.diff" "$p" quick 2>&1 | tail -1)
 		echo "$id $p: $r"
